@@ -95,7 +95,7 @@ func init() {
 	// cmatch: (sys text (probe...) table) -> ("err") | ("ok" (row...)), row =
 	//   ("verr" Match(string) MatchRequirement) | (MatchVersion MatchVersionPrerelease Set.MatchVersion Match(string) MatchRequirement)
 	// Match(string) is Constraint.Match on the candidate TEXT; MatchRequirement is
-	// resolve.MatchRequirement for npm (membership of the candidate in its result), -1 otherwise.
+	// resolve.MatchRequirement for npm, Maven and PyPI (membership of the candidate in its result), -1 otherwise.
 	register("cmatch", func(a sx.V) sx.V {
 		sys := sysOf(a.Nth(0))
 		c, err := sys.ParseConstraint(a.Nth(1).Str())
@@ -105,13 +105,20 @@ func init() {
 		texts := a.Nth(2).List()
 		ps := csParseProbes(sys, texts)
 		inReq := map[string]bool{}
-		if sys == semver.NPM {
+		rsys, viaResolve := resolve.NPM, sys == semver.NPM
+		switch sys {
+		case semver.Maven:
+			rsys, viaResolve = resolve.Maven, true
+		case semver.PyPI:
+			rsys, viaResolve = resolve.PyPI, true
+		}
+		if viaResolve {
 			var vs []resolve.Version
 			for _, t := range texts {
 				vs = append(vs, resolve.Version{VersionKey: resolve.VersionKey{
-					PackageKey: resolve.PackageKey{System: resolve.NPM, Name: "p"}, VersionType: resolve.Concrete, Version: t.Str()}})
+					PackageKey: resolve.PackageKey{System: rsys, Name: "p"}, VersionType: resolve.Concrete, Version: t.Str()}})
 			}
-			req := resolve.VersionKey{PackageKey: resolve.PackageKey{System: resolve.NPM, Name: "p"},
+			req := resolve.VersionKey{PackageKey: resolve.PackageKey{System: rsys, Name: "p"},
 				VersionType: resolve.Requirement, Version: a.Nth(1).Str()}
 			for _, m := range resolve.MatchRequirement(req, vs) {
 				inReq[m.Version] = true
@@ -121,7 +128,7 @@ func init() {
 		for k, p := range ps {
 			ms := sx.Int(csBit(c.Match(texts[k].Str())))
 			mr := sx.Int(-1)
-			if sys == semver.NPM {
+			if viaResolve {
 				mr = sx.Int(csBit(inReq[texts[k].Str()]))
 			}
 			if !p.ok {
@@ -179,48 +186,98 @@ func init() {
 		return sx.L(sx.Sym("ok"), sx.L(out...))
 	})
 	// setop: (sys textA textB (probe...) table) ->
-	//   ("err") | ("ok" A B U I U' I' (row...))
-	// U = A union B, I = A intersect B, U' = B union A, I' = B intersect A; A, B and the results are
-	// ("err") | ("ok" empty string dump); every operation works on freshly parsed operands.
-	// row = ("verr") | (aE aI bE bI uE uI iE iI u'E u'I i'E i'I); E = Set.MatchVersion,
-	// I = matchVersion(v, true); -1 where the operation failed.
+	//   ("err") | ("ok" A B U I U' I' (row...) (argok...) AU AI)
+	// U = A union B, I = A intersect B, U' = B union A, I' = B intersect A, AU = A union A,
+	// AI = A intersect A; A, B and the results are ("err") | ("ok" empty string dump); every
+	// operation works on freshly parsed operands.  An operand text that starts with { is read by
+	// ParseSetConstraint (multi-span operands for every system), any other by ParseConstraint.
+	// row = ("verr") | (aE aI bE bI uE uI iE iI u'E u'I i'E i'I pU pI pU' pI' auE auI aiE aiI):
+	// E = Set.MatchVersion, I = matchVersion(v, true), p* = the public route
+	// ParseSetConstraint(result.String()).MatchVersionPrerelease(v) (-2 when the printed result is
+	// rejected), au*/ai* = membership in A union A / A intersect A; -1 where the operation failed.
+	// argok: per operation 1 when the ARGUMENT prints and matches every probe as before the call.
 	register("setop", func(a sx.V) sx.V {
 		sys := sysOf(a.Nth(0))
 		ta, tb := a.Nth(1).Str(), a.Nth(2).Str()
+		parse1 := func(t string) (semver.Set, bool) {
+			var c *semver.Constraint
+			var err error
+			if len(t) > 0 && t[0] == '{' {
+				c, err = sys.ParseSetConstraint(t)
+			} else {
+				c, err = sys.ParseConstraint(t)
+			}
+			if err != nil {
+				return semver.Set{}, false
+			}
+			return c.Set(), true
+		}
 		parse2 := func() (semver.Set, semver.Set, bool) {
-			ca, err := sys.ParseConstraint(ta)
-			if err != nil {
+			x, ok := parse1(ta)
+			if !ok {
 				return semver.Set{}, semver.Set{}, false
 			}
-			cb, err := sys.ParseConstraint(tb)
-			if err != nil {
-				return semver.Set{}, semver.Set{}, false
-			}
-			return ca.Set(), cb.Set(), true
+			y, ok := parse1(tb)
+			return x, y, ok
 		}
 		sa, sb, ok := parse2()
 		if !ok {
 			return sx.L(sx.Sym("err"))
 		}
-		type opres struct {
-			s  semver.Set
-			ok bool
+		ps := csParseProbes(sys, a.Nth(3).List())
+		rowOf := func(s semver.Set) []int {
+			var r []int
+			for _, p := range ps {
+				if !p.ok {
+					r = append(r, -9, -9)
+					continue
+				}
+				r = append(r, csBit(s.MatchVersion(p.v)), csBit(semver.VerifSetMatch(s, p.v, true)))
+			}
+			return r
 		}
-		var ops [4]opres
-		for k := 0; k < 4; k++ {
+		same := func(x, y []int) bool {
+			if len(x) != len(y) {
+				return false
+			}
+			for i := range x {
+				if x[i] != y[i] {
+					return false
+				}
+			}
+			return true
+		}
+		type opres struct {
+			s     semver.Set
+			ok    bool
+			argok bool
+			pub   *semver.Constraint
+			pubOK bool
+		}
+		var ops [6]opres
+		for k := 0; k < 6; k++ {
 			x, y, _ := parse2()
-			if k >= 2 {
+			if k == 2 || k == 3 {
 				x, y = y, x
 			}
+			if k >= 4 {
+				y = x // receiver = argument
+			}
+			before, beforeStr := rowOf(y), y.String()
 			var err error
 			if k%2 == 0 {
 				err = x.Union(y)
 			} else {
 				err = x.Intersect(y)
 			}
-			ops[k] = opres{x, err == nil}
+			r := opres{s: x, ok: err == nil}
+			r.argok = k >= 4 || (same(before, rowOf(y)) && beforeStr == y.String())
+			if r.ok && k < 4 {
+				c2, err2 := sys.ParseSetConstraint(x.String())
+				r.pub, r.pubOK = c2, err2 == nil
+			}
+			ops[k] = r
 		}
-		ps := csParseProbes(sys, a.Nth(3).List())
 		var rows []sx.V
 		for _, p := range ps {
 			if !p.ok {
@@ -238,17 +295,41 @@ func init() {
 				}
 				row = append(row, sx.Int(csBit(ops[k].s.MatchVersion(p.v))), sx.Int(csBit(semver.VerifSetMatch(ops[k].s, p.v, true))))
 			}
+			for k := 0; k < 4; k++ {
+				switch {
+				case !ops[k].ok:
+					row = append(row, sx.Int(-1))
+				case !ops[k].pubOK:
+					row = append(row, sx.Int(-2))
+				default:
+					row = append(row, sx.Int(csBit(ops[k].pub.MatchVersionPrerelease(p.v))))
+				}
+			}
+			for k := 4; k < 6; k++ {
+				if !ops[k].ok {
+					row = append(row, sx.Int(-1), sx.Int(-1))
+					continue
+				}
+				row = append(row, sx.Int(csBit(ops[k].s.MatchVersion(p.v))), sx.Int(csBit(semver.VerifSetMatch(ops[k].s, p.v, true))))
+			}
 			rows = append(rows, sx.L(row...))
 		}
 		out := []sx.V{sx.Sym("ok"), csSetInfo(sa), csSetInfo(sb)}
-		for k := 0; k < 4; k++ {
+		info := func(k int) sx.V {
 			if ops[k].ok {
-				out = append(out, csSetInfo(ops[k].s))
-			} else {
-				out = append(out, sx.L(sx.Sym("err")))
+				return csSetInfo(ops[k].s)
 			}
+			return sx.L(sx.Sym("err"))
+		}
+		for k := 0; k < 4; k++ {
+			out = append(out, info(k))
 		}
 		out = append(out, sx.L(rows...))
+		var argok []sx.V
+		for k := 0; k < 4; k++ {
+			argok = append(argok, sx.Int(csBit(ops[k].argok)))
+		}
+		out = append(out, sx.L(argok...), info(4), info(5))
 		return sx.L(out...)
 	})
 	// setrt: (sys text (probe...) table) ->
